@@ -1,6 +1,7 @@
 import Storrent.Util
 import Storrent.Model.WireParse
 import Storrent.Model.PeerOut
+import Storrent.Model.PexFeed
 /- line-protocol driver for the C11 stream (see harness/cmd/c11):
    new / m … / e … / t … / x … act on one peer; adv, fc, tc are stateless. -/
 namespace Storrent.Drive.C11
@@ -173,6 +174,38 @@ def Storrent.Drive.C11.stepTags (s : Option Storrent.PeerOut.Peer) (ws : List St
     else ((Storrent.PeerOut.step p op).1, (Storrent.PeerOut.step p op).2.tag)
   | _, _ => ((Storrent.Drive.C11.step s ws).1, ws.headD "-")
 
+/-- the `feed` stream: the torrent-side PEX feed (Model/PexFeed.lean) -/
+def Storrent.Drive.C11.feedEv : Storrent.PexFeed.Ev → String
+  | .add id port flags => s!"a {id}:{port}:{flags}"
+  | .del id port => s!"d {id}:{port}"
+
+structure Storrent.Drive.C11.DS where
+  p : Option Storrent.PeerOut.Peer := none
+  feed : Storrent.PexFeed.Feed := {}
+
+open Storrent.Drive.C11 in
+def Storrent.Drive.C11.stepAll (tags : Bool) (s : DS) (ws : List String) : DS × String :=
+  let feedOp (op : Storrent.PexFeed.Op) : DS × String :=
+    let (f, evs) := Storrent.PexFeed.step s.feed op
+    ({ s with feed := f }, "feed [" ++ joinWith "|" (evs.map feedEv) ++ "]")
+  match ws with
+  | ["feed", "new"] => ({ s with feed := {} }, "feed ok")
+  | ["feed", "join", id, port, inc] =>
+    match id.toNat?, port.toNat?, bool? inc with
+    | some id, some port, some inc =>
+      if port < 65536 && id < 250 then feedOp (.join id port inc) else (s, "bad-op")
+    | _, _, _ => (s, "bad-op")
+  | ["feed", "ext0", id, pp] =>
+    match id.toNat?, pp.toNat? with
+    | some id, some pp => if pp < 65536 then feedOp (.ext0 id pp) else (s, "bad-op")
+    | _, _ => (s, "bad-op")
+  | ["feed", "leave", id] =>
+    match id.toNat? with
+    | some id => feedOp (.leave id)
+    | none => (s, "bad-op")
+  | _ =>
+    let (p', o) := if tags then stepTags s.p ws else step s.p ws
+    ({ s with p := p' }, o)
+
 def main (args : List String) : IO Unit :=
-  if args.contains "--tags" then Storrent.runLines Storrent.Drive.C11.stepTags none
-  else Storrent.runLines Storrent.Drive.C11.step none
+  Storrent.runLines (Storrent.Drive.C11.stepAll (args.contains "--tags")) {}
